@@ -501,6 +501,12 @@ class Exec:
             hook = getattr(self.top, "list_hook", None)
             if hook is not None:
                 hook(self, st.targets[0].id, v)
+        if isinstance(v, dict) and not v and len(st.targets) == 1 and isinstance(st.targets[0], ast.Name) and self.top is not None \
+                and st.targets[0].id in getattr(self.top, "symbolic_dicts", {}) and self.cur_func is not None \
+                and self.cur_func.key == self.top.key:
+            # a dictionary filled in a loop of symbolic length: unbounded symbolic key set (declared by the contract: key sort)
+            from .dicts import SymMap
+            v = SymMap.empty(st.targets[0].id, {"int": z3.IntSort()}[self.top.symbolic_dicts[st.targets[0].id]])
         for t in st.targets:
             self.assign(t, v, fr)
 
@@ -901,7 +907,11 @@ class Exec:
                     self.owner_frame(n, fr).locals.pop(n, None)
                 continue
             old = pre[n]
-            if isinstance(old, (NdArr, SList)) and "$live_" + n in pre:
+            if type(old).__name__ == "SymMap" and "$live_" + n in pre:
+                live = pre["$live_" + n]
+                live.member, live.value, live.count = old.member, old.value, old.count
+                self.owner_frame(n, fr).locals[n] = live
+            elif isinstance(old, (NdArr, SList)) and "$live_" + n in pre:
                 live = pre["$live_" + n]
                 if isinstance(live, NdArr):
                     live.cell.term, live.cell.nan = old.cell.term, old.cell.nan
@@ -952,6 +962,12 @@ class Exec:
                     self.assume(d >= 0)
                 return NdArr.fresh(n, dims, cur.kind, nan=cur.cell.nan is not None)
             return self._havoc_cell(cur, n)
+        if type(cur).__name__ == "SymMap":
+            cur.member = z3.Const(fresh_name(n + "_in"), cur.member.sort())
+            cur.value = z3.Const(fresh_name(n + "_val"), cur.value.sort())
+            cur.count = self.int(n + "_count")
+            self.assume(cur.count >= 0)
+            return cur
         if isinstance(cur, SList):
             cur.term = z3.Const(fresh_name(n), cur.term.sort())
             cur.length = self.int(n + "_len")
@@ -1922,7 +1938,7 @@ def snapshot_env(fr):
         for k, v in f.locals.items():
             if k in snap:
                 continue
-            if isinstance(v, (NdArr, SList)):
+            if isinstance(v, (NdArr, SList)) or type(v).__name__ == "SymMap":
                 snap[k] = v.snapshot()
                 snap["$live_" + k] = v
             elif isinstance(v, list):
